@@ -242,6 +242,7 @@ func c03Expected(cs *C03Case, t, b int, ep int) Res {
 // c03Exp (mode c03exp): a pristine child process computes expected[(t,b)] of the
 // case given on stdin (nothing at all has run in it before).
 func c03Exp() {
+	simrt.SingleThreaded = true
 	simrt.SimPools = true
 	var in struct {
 		Case     C03Case
